@@ -1,26 +1,47 @@
-(* C14, normal paths: parse_path (print_path fs) = Some (map norm_frag fs) for EVERY list of
-   child / index fragments (any key bytes, any integer). *)
+(* C14, paths of children, indexes, wildcards and descents: parse_path (print_path fs) =
+   Some (map norm_frag fs) for EVERY such fragment list (any key bytes, any integer). *)
 From Coq Require Import Init.Byte NArith ZArith List Bool Lia.
 Require Import Ojg.Base.Bytes Ojg.Base.Utf8 Ojg.Gen.StrMaps Ojg.Json.Ref Ojg.Json.IntLit Ojg.Json.Fmt Ojg.Json.Writer Ojg.Json.WInt.
 Require Import Ojg.Jp.Str Ojg.Jp.StrU Ojg.Jp.PathText.
 Import ListNotations.
 Open Scope Z_scope.
 
-(* what follows a fragment in a printed path: nothing, or a byte that ends a token *)
-Definition ends_token (w : bytes) : Prop := w = [] \/ exists b r, w = b :: r /\ tok_byte b = false.
+(* the printer in the form the parser sees it: a descent is both dots, and the fragment after it
+   drops its own dot *)
+Fixpoint print_ld (ld : bool) (fs : list nfrag) : bytes :=
+  match fs with
+  | [] => []
+  | NDescent :: r => x2e :: x2e :: print_ld true r
+  | NChild k :: r => (if token_ok k then (if ld then k else x2e :: k) else print_frag (NChild k)) ++ print_ld false r
+  | NWild true :: r => (if ld then [x2a] else [x2e; x2a]) ++ print_ld false r
+  | f :: r => print_frag f ++ print_ld false r
+  end.
 
-Lemma print_frag_starts f : exists b r, print_frag f = b :: r /\ (b = x2e \/ b = x5b).
+Lemma print_frags_ld fs :
+  print_frags fs = print_ld false fs /\
+  (if second_dot fs then [x2e] else []) ++ print_frags fs = x2e :: print_ld true fs.
 Proof.
-  destruct f as [k|i]; unfold print_frag.
-  - destruct (token_ok k); eexists; eexists; split; try reflexivity; auto.
-  - eexists; eexists; split; [reflexivity | auto].
+  induction fs as [|f fs [IH1 IH2]]; [split; reflexivity|].
+  destruct f as [k|i|star|].
+  - cbn [print_frags print_ld second_dot print_frag]. rewrite IH1. destruct (token_ok k); split; reflexivity.
+  - cbn [print_frags print_ld second_dot print_frag]. rewrite IH1. split; reflexivity.
+  - cbn [print_frags print_ld second_dot print_frag]. rewrite IH1. destruct star; split; reflexivity.
+  - cbn [print_frags print_ld second_dot]. split.
+    + cbn [List.app]. f_equal. exact IH2.
+    + cbn [List.app]. f_equal. f_equal. exact IH2.
 Qed.
 
-Lemma printed_ends_token fs : ends_token (flat_map print_frag fs).
+(* what follows a token in a printed path: nothing, or a byte that ends a token *)
+Definition ends_token (w : bytes) : Prop := w = [] \/ exists b r, w = b :: r /\ tok_byte b = false.
+
+Lemma printed_ends_token fs : ends_token (print_ld false fs).
 Proof.
-  destruct fs as [|f fs]; [left; reflexivity|]. right. cbn [flat_map].
-  destruct (print_frag_starts f) as (b & r & E & Hb). rewrite E. exists b, (r ++ flat_map print_frag fs).
-  split; [reflexivity|]. destruct Hb as [-> | ->]; reflexivity.
+  destruct fs as [|f fs]; [left; reflexivity|]. right.
+  destruct f as [k|i|star|]; cbn [print_ld print_frag].
+  - destruct (token_ok k); eexists; eexists; (split; [reflexivity|reflexivity]).
+  - eexists; eexists; (split; [reflexivity|reflexivity]).
+  - destruct star; eexists; eexists; (split; [reflexivity|reflexivity]).
+  - eexists; eexists; (split; [reflexivity|reflexivity]).
 Qed.
 
 Lemma span_token_run k : forall rest, forallb tok_byte k = true -> ends_token rest ->
@@ -49,21 +70,21 @@ Proof.
 Qed.
 
 Lemma is_digit_not_special d : is_digit d = true ->
-  beqb d x27 = false /\ beqb d x22 = false /\ beqb d x2d = false /\ beqb d x20 = false.
+  beqb d x27 = false /\ beqb d x22 = false /\ beqb d x2d = false /\ beqb d x20 = false /\ beqb d x2a = false.
 Proof.
   unfold is_digit. intro H. apply andb_true_iff in H as [H1 H2]. apply Z.leb_le in H1, H2.
   repeat split; (destruct (beqb d _) eqn:E; [apply beqb_eq in E; subst d; vm_compute in H1; vm_compute in H2; exfalso; (apply H1 || apply H2); reflexivity | reflexivity]).
 Qed.
 
-Lemma parse_nth f i rest :
-  parse_frags (S f) (print_frag (NNth i) ++ rest) = cons_opt (NNth i) (parse_frags f rest).
+Lemma parse_nth f ld i rest :
+  parse_frags (S f) ld (print_frag (NNth i) ++ rest) = cons_opt (NNth i) (parse_frags f false rest).
 Proof.
   unfold print_frag, format_int. destruct (i <? 0) eqn:En.
   - apply Z.ltb_lt in En. destruct (dec_text (- i) ltac:(lia)) as (d & ds & E & HA & HV). rewrite E.
     pose proof (Forall_inv HA) as Hd. cbn beta in Hd.
-    cbn [List.app parse_frags]. change (beqb x5b x2e) with false. change (beqb x5b x5b) with true. cbn iota.
+    cbn [List.app parse_frags]. change (beqb x5b x2e) with false. change (beqb x5b x2a) with false. change (beqb x5b x5b) with true. cbn iota.
     cbn [skip_space]. change (beqb x2d x20) with false. cbn iota.
-    change (beqb x2d x27 || beqb x2d x22) with false. cbn iota. change (beqb x2d x2d) with true. cbn iota.
+    change (beqb x2d x2a) with false. change (beqb x2d x27 || beqb x2d x22) with false. cbn iota. change (beqb x2d x2d) with true. cbn iota.
     rewrite <- app_assoc. cbn [List.app]. rewrite Hd.
     change (d :: ds ++ x5d :: rest) with ((d :: ds) ++ x5d :: rest). rewrite (read_digits_run (d :: ds) 0 rest HA).
     cbn [skip_space]. change (beqb x5d x20) with false. cbn iota. change (beqb x5d x5d) with true. cbn iota.
@@ -74,68 +95,101 @@ Proof.
       - exists x30, []. split; [reflexivity|]. split; [repeat constructor | reflexivity].
       - apply dec_text. lia. }
     destruct Hfmt as (d & ds & E & HA & HV). rewrite E. pose proof (Forall_inv HA) as Hd. cbn beta in Hd.
-    destruct (is_digit_not_special d Hd) as (N1 & N2 & N3 & N4).
-    cbn [List.app parse_frags]. change (beqb x5b x2e) with false. change (beqb x5b x5b) with true. cbn iota.
-    cbn [skip_space]. rewrite N4. rewrite N1, N2. cbn [orb]. cbn iota. rewrite N3. cbn iota. rewrite Hd.
+    destruct (is_digit_not_special d Hd) as (N1 & N2 & N3 & N4 & N5).
+    cbn [List.app parse_frags]. change (beqb x5b x2e) with false. change (beqb x5b x2a) with false. change (beqb x5b x5b) with true. cbn iota.
+    cbn [skip_space]. rewrite N4. rewrite N5. rewrite N1, N2. cbn [orb]. cbn iota. rewrite N3. cbn iota. rewrite Hd.
     rewrite <- app_assoc. cbn [List.app].
     change (d :: ds ++ x5d :: rest) with ((d :: ds) ++ x5d :: rest). rewrite (read_digits_run (d :: ds) 0 rest HA).
     cbn [skip_space]. change (beqb x5d x20) with false. cbn iota. change (beqb x5d x5d) with true. cbn iota.
     fold (digits_val (d :: ds)). rewrite HV. reflexivity.
 Qed.
 
-Lemma tok_byte_not_special c : tok_byte c = true -> beqb c x2a || beqb c x2e = false.
+Lemma tok_byte_not_special c : tok_byte c = true -> beqb c x2a = false /\ beqb c x2e = false /\ beqb c x5b = false.
 Proof.
-  intro H. destruct (beqb c x2a) eqn:E1; [apply beqb_eq in E1; subst c; discriminate H|].
-  destruct (beqb c x2e) eqn:E2; [apply beqb_eq in E2; subst c; discriminate H|]. reflexivity.
+  intro H. repeat split; (destruct (beqb c _) eqn:E; [apply beqb_eq in E; subst c; discriminate H | reflexivity]).
 Qed.
 
-Lemma parse_child f k rest : ends_token rest ->
-  parse_frags (S f) (print_frag (NChild k) ++ rest) = cons_opt (norm_frag (NChild k)) (parse_frags f rest).
+Lemma parse_bracket_child f ld k rest : token_ok k = false ->
+  parse_frags (S f) ld (print_frag (NChild k) ++ rest) = cons_opt (norm_frag (NChild k)) (parse_frags f false rest).
 Proof.
-  intro Hr. unfold print_frag, norm_frag. destruct (token_ok k) eqn:Ht.
-  - destruct k as [|c k]; [discriminate Ht|]. unfold token_ok in Ht. cbn [forallb] in Ht.
-    apply andb_true_iff in Ht as [Hc Hk].
-    cbn [List.app parse_frags]. change (beqb x2e x2e) with true. cbn iota.
-    rewrite (tok_byte_not_special c Hc). cbn iota. rewrite Hc. cbn [negb]. cbn iota.
-    rewrite (span_token_run k rest Hk Hr). reflexivity.
-  - cbn [List.app parse_frags]. change (beqb x5b x2e) with false. change (beqb x5b x5b) with true. cbn iota.
-    cbn [skip_space]. change (beqb x27 x20) with false. cbn iota.
-    change (beqb x27 x27 || beqb x27 x22) with true. cbn iota.
-    rewrite <- app_assoc. cbn [List.app].
-    rewrite (string_roundtrip_all k x27 (x5d :: rest) (or_intror eq_refl)).
-    cbn [skip_space]. change (beqb x5d x20) with false. cbn iota. change (beqb x5d x5d) with true. cbn iota. reflexivity.
+  intro Ht. unfold print_frag, norm_frag. rewrite Ht.
+  cbn [List.app parse_frags]. change (beqb x5b x2e) with false. change (beqb x5b x2a) with false. change (beqb x5b x5b) with true. cbn iota.
+  cbn [skip_space]. change (beqb x27 x20) with false. cbn iota. change (beqb x27 x2a) with false. cbn iota.
+  change (beqb x27 x27 || beqb x27 x22) with true. cbn iota.
+  rewrite <- app_assoc. cbn [List.app].
+  rewrite (string_roundtrip_all k x27 (x5d :: rest) (or_intror eq_refl)).
+  cbn [skip_space]. change (beqb x5d x20) with false. cbn iota. change (beqb x5d x5d) with true. cbn iota. reflexivity.
 Qed.
 
-Lemma parse_printed fs : forall fuel, (length fs < fuel)%nat ->
-  parse_frags fuel (flat_map print_frag fs) = Some (map norm_frag fs).
+Lemma parse_dot_child f ld c k rest : tok_byte c = true -> forallb tok_byte k = true -> ends_token rest ->
+  parse_frags (S f) ld (x2e :: (c :: k) ++ rest) = cons_opt (NChild (c :: k)) (parse_frags f false rest).
 Proof.
-  induction fs as [|f fs IH]; intros fuel Hf.
+  intros Hc Hk Hr. destruct (tok_byte_not_special c Hc) as (N1 & N2 & N3).
+  cbn [List.app parse_frags]. change (beqb x2e x2e) with true. cbn iota.
+  rewrite N1, N2. cbn iota. rewrite Hc. cbn [negb]. cbn iota.
+  rewrite (span_token_run k rest Hk Hr). reflexivity.
+Qed.
+
+Lemma parse_bare_child f c k rest : tok_byte c = true -> forallb tok_byte k = true -> ends_token rest ->
+  parse_frags (S f) true ((c :: k) ++ rest) = cons_opt (NChild (c :: k)) (parse_frags f false rest).
+Proof.
+  intros Hc Hk Hr. destruct (tok_byte_not_special c Hc) as (N1 & N2 & N3).
+  cbn [List.app parse_frags]. rewrite N2, N1, N3. cbn iota. rewrite Hc. cbn [andb]. cbn iota.
+  rewrite (span_token_run k rest Hk Hr). reflexivity.
+Qed.
+
+Lemma parse_printed fs : forall fuel ld, (length fs < fuel)%nat ->
+  parse_frags fuel ld (print_ld ld fs) = Some (map norm_frag fs).
+Proof.
+  induction fs as [|f fs IH]; intros fuel ld Hf.
   - destruct fuel; [simpl in Hf; lia|]. reflexivity.
-  - destruct fuel as [|fuel]; [simpl in Hf; lia|]. simpl in Hf. cbn [flat_map map].
-    destruct f as [k|i].
-    + rewrite (parse_child fuel k _ (printed_ends_token fs)). rewrite IH by lia. reflexivity.
-    + rewrite parse_nth. rewrite IH by lia. reflexivity.
+  - destruct fuel as [|fuel]; [simpl in Hf; lia|]. simpl in Hf. cbn [map].
+    destruct f as [k|i|star|].
+    + cbn [print_ld]. destruct (token_ok k) eqn:Ht.
+      * assert (Hn : norm_frag (NChild k) = NChild k) by (unfold norm_frag; rewrite Ht; reflexivity). rewrite Hn.
+        destruct k as [|c k]; [discriminate Ht|]. unfold token_ok in Ht. cbn [forallb] in Ht.
+        apply andb_true_iff in Ht as [Hc Hk].
+        destruct ld.
+        { rewrite (parse_bare_child fuel c k _ Hc Hk (printed_ends_token fs)). rewrite IH by lia. reflexivity. }
+        { change ((x2e :: c :: k) ++ print_ld false fs) with (x2e :: (c :: k) ++ print_ld false fs).
+          rewrite (parse_dot_child fuel false c k _ Hc Hk (printed_ends_token fs)). rewrite IH by lia. reflexivity. }
+      * rewrite (parse_bracket_child fuel ld k _ Ht). rewrite IH by lia. reflexivity.
+    + cbn [print_ld]. rewrite parse_nth. rewrite IH by lia. reflexivity.
+    + destruct star; cbn [print_ld print_frag].
+      * destruct ld; cbn [List.app parse_frags].
+        { change (beqb x2a x2e) with false. change (beqb x2a x2a) with true. cbn iota. rewrite IH by lia. reflexivity. }
+        { change (beqb x2e x2e) with true. cbn iota. change (beqb x2a x2a) with true. cbn iota. rewrite IH by lia. reflexivity. }
+      * cbn [List.app parse_frags]. change (beqb x5b x2e) with false. change (beqb x5b x2a) with false. change (beqb x5b x5b) with true. cbn iota.
+        cbn [skip_space]. change (beqb x2a x20) with false. cbn iota. change (beqb x2a x2a) with true. cbn iota.
+        cbn [skip_space]. change (beqb x5d x20) with false. cbn iota. change (beqb x5d x5d) with true. cbn iota.
+        rewrite IH by lia. reflexivity.
+    + cbn [print_ld parse_frags]. change (beqb x2e x2e) with true. cbn iota. change (beqb x2e x2a) with false. cbn iota.
+      rewrite IH by lia. reflexivity.
 Qed.
 
-Lemma print_frag_nonempty f : (1 <= length (print_frag f))%nat.
-Proof. destruct (print_frag_starts f) as (b & r & -> & _). simpl. lia. Qed.
-
-Lemma printed_length fs : (length fs <= length (flat_map print_frag fs))%nat.
+Lemma printed_length fs : forall ld, (length fs <= length (print_ld ld fs))%nat.
 Proof.
-  induction fs as [|f fs IH]; [simpl; lia|]. cbn [flat_map length]. rewrite app_length.
-  pose proof (print_frag_nonempty f). lia.
+  induction fs as [|f fs IH]; intro ld; [simpl; lia|].
+  destruct f as [k|i|star|]; cbn [print_ld length]; try rewrite app_length.
+  - specialize (IH false). destruct (token_ok k) eqn:Ht.
+    + destruct k as [|c k]; [discriminate Ht|]. destruct ld; simpl; lia.
+    + unfold print_frag. rewrite Ht. simpl. lia.
+  - specialize (IH false). simpl. lia.
+  - specialize (IH false). destruct star; [destruct ld|]; simpl; lia.
+  - specialize (IH true). lia.
 Qed.
 
 Theorem path_text_round_trip fs : parse_path (print_path fs) = Some (map norm_frag fs).
 Proof.
   unfold parse_path, print_path. change (beqb x24 x24) with true. cbn iota.
-  apply parse_printed. pose proof (printed_length fs). lia.
+  destruct (print_frags_ld fs) as [-> _].
+  apply parse_printed. pose proof (printed_length fs false). lia.
 Qed.
 
 (* keys that are valid UTF-8 (sanitize k = k) come back unchanged, so the whole path does *)
-Definition frag_clean (f : nfrag) : Prop := match f with NChild k => sanitize k = k | NNth _ => True end.
+Definition frag_clean (f : nfrag) : Prop := match f with NChild k => sanitize k = k | _ => True end.
 Lemma norm_clean f : frag_clean f -> norm_frag f = f.
-Proof. destruct f as [k|i]; simpl; [|reflexivity]. intro H. destruct (token_ok k); [reflexivity | rewrite H; reflexivity]. Qed.
+Proof. destruct f as [k|i|star|]; simpl; try reflexivity. intro H. destruct (token_ok k); [reflexivity | rewrite H; reflexivity]. Qed.
 
 Theorem path_text_round_trip_clean fs : Forall frag_clean fs -> parse_path (print_path fs) = Some fs.
 Proof.
